@@ -188,8 +188,10 @@ func VerifyBlindedSignature(blinded, original destination.Destination, alpha [32
 // the 32-byte signing public key.
 func extractEd25519SigningKey(dest destination.Destination) ([32]byte, error) {
 	var result [32]byte
-	if dest.KeyCertificate.SigningPublicKeyType() != key_certificate.KEYCERT_SIGN_ED25519 {
-		return result, oops.Errorf("destination does not use Ed25519")
+	// the same two signature types CreateBlindedDestination accepts: Ed25519 and RedDSA share the key format
+	if sigType := dest.KeyCertificate.SigningPublicKeyType(); sigType != key_certificate.KEYCERT_SIGN_ED25519 &&
+		sigType != key_certificate.KEYCERT_SIGN_REDDSA_ED25519 {
+		return result, oops.Errorf("destination does not use Ed25519 or RedDSA")
 	}
 	key, err := dest.SigningPublicKey()
 	if err != nil {
